@@ -123,9 +123,11 @@ let cur = ref empty_tree
 let () =
   let mode = Sys.argv.(1) in
   let width = nat_of_int (if Array.length Sys.argv > 2 then int_of_string Sys.argv.(2) else 64) in
-  (* third argument "fixed": the model of the candidate repair of CsgTree::exchange
-     (coq/C10/CsgFixed.v) instead of the model of the code as it is in /repo *)
-  let fixed = Array.length Sys.argv > 3 && Sys.argv.(3) = "fixed" in
+  (* the model of the code as it is: exchange as repaired in /repo d70f3c2 (coq/C10/CsgFixed.v).
+     Third argument "before-repair": the model of the code before the repair (coq/C10/Csg.v,
+     faithful variant + the variant with the extra topological check), for replaying the
+     *_before_repair_refuted witnesses by hand. *)
+  let fixed = not (Array.length Sys.argv > 3 && Sys.argv.(3) = "before-repair") in
   (try
     while true do
       let line = input_line stdin in
